@@ -382,6 +382,11 @@ fn corrupt(doc: &str, r: &mut Prng) -> (String, &'static str) {
 
 fn fixtures() -> Vec<String> {
     let mut v = vec![];
+    if cfg!(miri) {
+        // the repo's fixtures are 30-60 kB of XML: hours under Miri. The Miri leg works on the
+        // generated documents only.
+        return v;
+    }
     if let Ok(rd) = std::fs::read_dir("/repo/tests/data") {
         let mut paths: Vec<_> = rd.filter_map(|e| e.ok()).map(|e| e.path()).filter(|p| p.extension().map(|e| e == "dig").unwrap_or(false)).collect();
         paths.sort();
